@@ -17,7 +17,7 @@ ID = 'C10'
 LEVEL = 'exploration'
 PRELOAD = ['frame.geometry.geometry', 'frame.netlist.netlist', 'frame.die.die', 'frame.allocation.allocation', 'ruamel.yaml', 'mc.common', 'tools.glbfloor.optimization']
 RULE = ("dies {4x4, 6x4, 4x4 with a blockage, 4x4 with a fixed module} x pre-refinement {split_refinable_regions(2,4) / (2,16) / (1.5,9), initial_grid(2,2) / (4,4) / (2,4) / (3,2) on empty dies} x netlists of "
-        "2-3 modules from {soft A, soft B, soft C (overlapping the fixed module), hard single rectangle, hard L-shape, flippable hard L-shape, flippable shapes almost aligned in x or y} (+ the fixed module of the die) with a chain of 2-pin nets or one hyperedge x "
+        "2-3 modules from {soft A, soft B, soft C (overlapping the fixed module), hard single rectangle, hard L-shape, flippable hard L-shape, flippable shapes almost aligned in x or y} (+ the fixed module of the die, also named like the optimiser's internal name of a hard module's first rectangle) with a chain of 2-pin nets or one hyperedge x "
         "alpha in {0.1, 0.5} x threshold in {0.7, 0.95} x max_iter in {1, 2} (quick: full product minus one corner); thorough: alpha {0.1,0.5,0.9} x threshold {0.5,0.7,0.95} x max_iter {1,2,3}. "
         "Non-trivial = runs that returned an allocation with at least one cell shared by two modules or partially occupied; distinct by construction.")
 ASSUMPTIONS = ["'within solver tolerance': ratios in [-1e-6, 1+1e-6], per-cell occupancy <= 1 + 1e-4, centres inside the die within 1e-6 (GEKKO RTOL/OTOL default 1e-6)",
@@ -68,6 +68,9 @@ def instances(tier):
             if hyper and len(NETLISTS[nl]) < 3:
                 continue
             full.append(dict(die=d, netlist=nl, pre=PRES[pre], alpha=a, thr=t, max_iter=it, hyper=hyper))
+            # the fixed module carries the name the optimiser gives internally to rectangle 0 of a movable hard module
+            if d == 'd44f' and not hyper and it == 2 and any(MODS[k].get('hard') for k in NETLISTS[nl]):
+                full.append(dict(die=d, netlist=nl, pre=PRES[pre], alpha=a, thr=t, max_iter=it, hyper=hyper, collide=True))
     return full
 
 
@@ -84,8 +87,11 @@ def build(case):
         mods[f'M{i}_{k}'] = node
         names.append(f'M{i}_{k}')
     if d['fixed']:
-        mods['F'] = {'fixed': True, 'rectangles': [d['fixed']]}
-        names.append('F')
+        fname = 'F'
+        if case.get('collide'):
+            fname = next(nm for nm in names if mods[nm].get('hard')) + '_0'
+        mods[fname] = {'fixed': True, 'rectangles': [d['fixed']]}
+        names.append(fname)
     if case['hyper']:
         nets = [names[:3] + [2.0]] + ([[names[0], names[-1]]] if len(names) > 3 else [])
     else:
@@ -107,6 +113,8 @@ def check_case(case, res):
     from tools.glbfloor.optimization import glbfloor
     reset_frame_state()
     attrs = dict(die=case['die'], mods=list(NETLISTS[case['netlist']]), pre=bool(case['pre']), thr=case['thr'], max_iter=case['max_iter'])
+    if case.get('collide'):
+        attrs['collide'] = True
     die, n = build(case)
     W, H = die.width, die.height
     before = {}
